@@ -322,6 +322,7 @@ struct Mon {
     base: Vec<u8>,
     violations: Vec<(String, String)>,
     points: u64,
+    growth: Vec<(&'static str, u64)>, // file length minus the length at log.locked, per point
 }
 static MON: std::sync::Mutex<Option<Mon>> = std::sync::Mutex::new(None);
 
@@ -330,6 +331,10 @@ fn mon_set_path(p: Option<std::path::PathBuf>) {
     let m = g.get_or_insert_with(Mon::default);
     m.path = p;
     m.base.clear();
+}
+fn mon_take_growth() -> Vec<(&'static str, u64)> {
+    let mut g = MON.lock().unwrap_or_else(|e| e.into_inner());
+    std::mem::take(&mut g.get_or_insert_with(Mon::default).growth)
 }
 fn mon_drain() -> (Vec<(String, String)>, u64) {
     let mut g = MON.lock().unwrap_or_else(|e| e.into_inner());
@@ -363,6 +368,10 @@ fn install_hook() {
                 m.base = cur;
             }
             _ => {
+                m.growth.push((name, cur.len().saturating_sub(m.base.len()) as u64));
+                if m.growth.len() > 4096 {
+                    m.growth.clear();
+                }
                 if cur.len() < m.base.len() || cur[..m.base.len()] != m.base[..] {
                     m.violations.push((format!("at {name}: the bytes the log had at log.locked are no longer a prefix ({} -> {})", m.base.len(), cur.len()), "log_prefix_changed".into()));
                 } else {
@@ -769,7 +778,7 @@ fn push_violation(res: &mut RunResult, case_id: i64, what: String, class: &str, 
     }
 }
 
-fn log_level_cases(a: &Args, res: &mut RunResult, base_id: i64) {
+fn log_level_cases(a: &Args, res: &mut RunResult, base_id: i64, w: &mut CaseWriter) {
     use rip_log::EventLog;
     // L1: one handle; the file is inspected around every append and at every log.* point inside it
     let sizes: Vec<usize> = vec![200, 4096, 8190, 8191, 8192, 8193, 8194, 8300, 16383, 16384, 16385, 24577, 65536, 100_000, 250_000];
@@ -781,6 +790,7 @@ fn log_level_cases(a: &Args, res: &mut RunResult, base_id: i64) {
         for (i, total) in sizes.iter().enumerate() {
             let ev = delta_event("s-big", i as u64, *total, esc);
             let before = std::fs::read(&path).unwrap_or_default();
+            let _ = mon_take_growth();
             let r = std::panic::catch_unwind(std::panic::AssertUnwindSafe(|| log.append(&ev)));
             let after = std::fs::read(&path).unwrap_or_default();
             res.evaluations += 1;
@@ -788,10 +798,19 @@ fn log_level_cases(a: &Args, res: &mut RunResult, base_id: i64) {
             res.bump("log_level_appends");
             let replay = json!({"kind": "log_level_append", "frame_line_bytes_incl_newline": total, "escapes": esc, "frames_before": i});
             let (hv, hp) = mon_drain();
+            let growth = mon_take_growth();
             res.oracle_checks += hp;
             res.bump_by("hook_points_checked_inside_append", hp);
             for (what, class) in hv {
                 push_violation(res, base_id + i as i64, format!("EventLog::append of a {total}-byte frame line: {what}"), &class, replay.clone());
+            }
+            // correspondence with the byte-level model (BufWriter rule): growth of the file at
+            // log.body_written (after the write, before the flush) and at log.flushed
+            let at = |p: &str| growth.iter().find(|g| g.0 == p).map(|g| g.1);
+            if let (Some(g1), Some(g2), false, true) = (at("log.body_written"), at("log.flushed"), a.oracle_only(), *total <= 70_000) {
+                let id = w.push(format!("CBytes {{| cb_len := {}; cb_expect := {} |}}", coq_n(*total as u64), coq_list_n(&[g1, g2])));
+                res.case_index.insert(id.to_string(), replay.clone());
+                res.bump("byte_model_cases");
             }
             if !matches!(r, Ok(Ok(()))) {
                 push_violation(res, base_id + i as i64, format!("EventLog::append of a {total}-byte frame failed / panicked"), "panic", replay.clone());
@@ -1088,7 +1107,7 @@ fn main() {
     res.rule = "case = history of ContinuityStore capability calls (17 capabilities, 7 append kinds, every selector / summary / stride / limit / dry_run / execute / block_on_inflight combination, 40 unknown / malformed / path-shaped thread ids, frames of 8190..100000 bytes), sidecar faults (delete all caches, torn tail, empty, stale prefix) and restarts; 16 named store states (in-flight job, backlog > max_new, all checkpointed, caches deleted / corrupt, restart, children, > 256 KiB thread) x every parameter combination of the read-only / dry-run / no-op invocations on a known id and on `../events`; events.jsonl is read before and after EVERY call and at every log.* hook point inside EventLog::append; non-trivial = at least one appending call, one silent call and one fault or restart; distinct by hash of the call list; plus log-level cases (frames around the BufWriter capacity, second O_APPEND handle) and router-level cases (percent-encoded ids through the real axum router), oracle only".into();
     let n = if a.thorough() { 1500 } else { 110 };
     let mut r = Rng::new(a.seed);
-    let mut w = CaseWriter::new(&a.out, "Model.Frames Model.Log Model.ContStore", "check_case_c02", "model_obs_c02", 8);
+    let mut w = CaseWriter::new(&a.out, "Model.Frames Model.Log Model.ContStore Model.LogBytes Model.C02Cases", "check_case_c02x", "model_obs_c02x", 8);
     let mut distinct = Distinct::default();
     install_hook();
     let mut all: Vec<(String, Vec<Call>)> = sweep_cases();
@@ -1130,7 +1149,7 @@ fn main() {
                 if o.unmodelled {
                     res.bump("cases_with_failed_job_not_compared");
                 } else if !a.oracle_only() {
-                    let term = format!("{{| c2_calls := [{}]; c2_expect := {} |}}", o.coq_calls.join("; "), coq_list_n(&o.obs));
+                    let term = format!("CStore {{| c2_calls := [{}]; c2_expect := {} |}}", o.coq_calls.join("; "), coq_list_n(&o.obs));
                     let id = w.push(term);
                     if res.case_index.len() < 3000 {
                         let shown: Vec<_> = if calls.len() > 60 { vec![json!(format!("{label} ({} calls; see sweep_cases in harness/src/bin/c02.rs)", calls.len()))] } else { calls.iter().map(call_json).collect() };
@@ -1151,9 +1170,9 @@ fn main() {
             break;
         }
     }
-    w.flush();
     let base = res.evaluations as i64;
-    log_level_cases(&a, &mut res, base);
+    log_level_cases(&a, &mut res, base, &mut w);
+    w.flush();
     router_cases(&a, &mut res, base + 1000);
     rip_kernel::verif::set_hook(None);
     res.distinct_nontrivial = distinct.count();
